@@ -117,6 +117,16 @@ def run(ctx):
                     [ins("MOV", MA(0x1234), R32_(0)), ins("MOV", M32_(3), R32_(0))],
                     [ins("ADD", R32_(0), I_(1)), ins("ADD", R32_(3), I_(1)), ins("SUB", R32_(0), I_(1)), ins("SUB", R32_(3), I_(1))],
                     [ins("MOV", R32_(0), R32_(3)), ins("MOV", R32_(3), R32_(0))]]}
+    # memory shapes that share operand TYPES (r, m) but select different forms: absolute (moffs for the accumulator), index without
+    # base, base + index, base + disp8 / disp32 - with the accumulator and with another register, load and store
+    MX = lambda aw, b, x, sc, d: {"t": "m", "w": 0, "aw": aw, "b": b, "x": x, "sc": sc, "d": d, "hd": 1 if d else 0, "sty": "h"}
+    shapes32 = [MA(0x1000), MX(32, -1, 1, 4, 0x2000), MX(32, 3, 6, 1, 0), MX(32, 3, -1, 1, 8), MX(32, 3, -1, 1, 0x1000), MX(32, 5, 7, 2, 0x10)]
+    shapes16 = [MA(0x1000), MX(16, 3, 6, 1, 0), MX(16, 5, -1, 1, 2), MX(16, 3, -1, 1, 0x300), MX(16, 6, -1, 1, 0)]
+    classes[32] += [[ins("MOV", R32_(0), m) for m in shapes32], [ins("MOV", m, R32_(0)) for m in shapes32],
+                    [ins("MOV", R8_(0), m) for m in shapes32[:4]], [ins("MOV", R32_(1), m) for m in shapes32[:4]],
+                    [ins("ADD", R32_(0), m) for m in shapes32[:4]]]
+    classes[16] += [[ins("MOV", R16_(0), m) for m in shapes16], [ins("MOV", m, R16_(0)) for m in shapes16],
+                    [ins("MOV", m, R8_(0)) for m in shapes16[:4]]]
     ncoll = 0
     for bits, cls in classes.items():
         pre = [{"k": "bits", "v": 32}] if bits == 32 else []
